@@ -1,6 +1,6 @@
 (* C10 - blocked callers are woken when capacity frees (no lost wake-up or hand-off). *)
 From Coq Require Import ZArith List Bool.
-From GCL Require Import Model.Waiters Proofs.WaitersProofs Proofs.WaitersDrain Model.BlockingLTS Proofs.BlockingLTSProofs Model.QueueLTS Proofs.QueueLTSProofs.
+From GCL Require Import Model.Waiters Proofs.WaitersProofs Proofs.WaitersDrain Model.BlockingLTS Proofs.BlockingLTSProofs Model.QueueLTS Proofs.QueueLTSProofs Model.DeadlineLTS Proofs.DeadlineLTSProofs.
 Import ListNotations.
 
 (* Settled granularity (every operation runs to quiescence): a release on the queue limiter with callers waiting and room
@@ -47,3 +47,20 @@ Theorem C10_release_serves_settled s i c pref : nth_error (ws_callers s) i = Som
   (nblocked (release s i pref) <= nblocked s - 1)%Z.
 Proof. exact (release_serves_one s i c pref). Qed.
 Print Assumptions C10_release_serves_settled.
+
+(* Deadline limiter, step granularity with an explicit clock (try / sleep / release / broadcast / tick / timer as separate steps, any
+   number of callers): the same statement and the same window as for the blocking limiter ... *)
+Theorem C10_deadline_partial s0 s : DInv s0 -> dreach_nw s0 s -> dstranded s = false.
+Proof. exact (deadline_partial s0 s). Qed.
+Print Assumptions C10_deadline_partial.
+
+(* ... and inside the window it FAILS (known finding F8d, replayed on the implementation by raceF8deadline): the caller sleeps before
+   the deadline with capacity free; when its timer fires after the deadline instant it is refused although the token was free all along. *)
+Theorem C10_deadline_refuted : exists s', drun d0 lost_sched = Some s' /\ dstranded s' = true.
+Proof. exact deadline_refuted. Qed.
+Print Assumptions C10_deadline_refuted.
+Theorem C10_deadline_refuted_refusal :
+  exists s', drun d0 (lost_sched ++ [DTick; DTick; DTick; DTick; DTick; DTick; DTimer 1%nat; DTry 1%nat]) = Some s'
+             /\ nth_error (dthr s') 1 = Some DRefused /\ dbusy s' = 0%Z /\ dlimit s' = 1%Z.
+Proof. exact deadline_refuted_refusal. Qed.
+Print Assumptions C10_deadline_refuted_refusal.
